@@ -119,7 +119,7 @@ def main(ctx):
     shapes = _shapes(2, 2) if ctx.quick else _shapes(3, 3)
     for shape in shapes:
         total = sum(shape)
-        for losses in ("improving", "never", "mixed"):
+        for losses in ("improving", "never", "mixed", "to_zero"):
             agents = []
             nscript = total  # non-bootstrap batches + one pending choice
             scripts = list(itertools.product((0, 1), repeat=min(nscript, 3 if ctx.quick else 4)))
@@ -131,6 +131,10 @@ def main(ctx):
             for ai, agent in enumerate(agents):
                 for samplers in (("with_halton", "without_halton") if ai % 2 == 0 else ("with_halton",)):
                     cfg = {"shape": shape, "losses": losses, "agent": agent, "samplers": samplers}
+                    if losses == "to_zero":
+                        if ai % 3:
+                            continue
+                        cfg["l0"] = 5.0   # the best loss becomes exactly 0.0 during the run
                     # (1) ALL interleavings modulo commutation of independent steps (sleep sets), every shape and configuration;
                     #     for the two smallest shapes the unreduced search is run as well and must agree
                     cells.append({"cfg": cfg, "mode": "sync", "bound": None, "max_execs": 60000, "por": True, "crosscheck": shape in ([1], [2]) and ai < 3})
